@@ -1,5 +1,5 @@
 """Registry: which parts make up each property's check (see DESIGN.md section 4)."""
-from vlib import GoBin, GoTest, McPart, RwTest, TracePart
+from vlib import GoBin, GoTest, McPart, RwTest, TracePart, PamxPart
 
 MC = 'github.com/whawty/auth/internal/verifmc'
 AGENT_RW = {'imports': {
@@ -10,6 +10,8 @@ AGENT_SEQ = {'only_imports': True, 'imports': {'web_session.go': {'time': MC + '
 
 
 ENGINES = [
+    {'name': 'pamx', 'path': 'pamx', 'serves_properties': ['C20', 'C13', 'C05'],
+     'kind_free_text': 'in-process DFS over environment answers for the C PAM module (clang ASan/UBSan, --wrap of socket calls, stub PAM headers, virtual time)'},
     {'name': 'tracefs', 'path': 'tracefs harness/drv harness/oracle', 'serves_properties': ['C03', 'C08', 'C09', 'C15'],
      'kind_free_text': 'strace-based system-call trace of a driver built from the real code, replayed in a Python file-system persistence model (validated against the real directory); exhaustive crash-state / fault / path enumeration'},
     {'name': 'mc', 'path': 'mc tools/mcrewrite harness/agentmc', 'serves_properties': ['C10', 'C11', 'C12', 'C18', 'C19'],
@@ -150,6 +152,14 @@ CHECKS = {
         'text': 'Every ordering of change notifications, timer expiries and hook-process events is explored on the real hooks loop; monitors on the recorded process starts: every store change is followed by a round for that store, at most two rounds per interval, nothing runs without a change, a hanging hook is killed after exactly one minute and never blocks the agent. Every directory content of the enumeration is judged against the eligibility rule.',
         'note': 'Processes are modelled (real eligibility test of the file, behaviour fast/failing/hanging chosen by the harness); timers are virtual.',
         'parts': [McPart('mc', 'C19', 'cmd/whawty-auth', ['harness/agentmc'], AGENT_RW)],
+    },
+    'C20': {
+        'level': 'model_checking',
+        'engine': 'pamx',
+        'technique': 'exhaustive deviation-bounded exploration of environment answers (wrapped socket/select/read/write) around the unchanged, sanitizer-instrumented C module, per enumerated case (credentials, options, server script)',
+        'text': 'For every case every sequence of environment answers within the deviation bound is executed on the real module: PAM_SUCCESS only after a complete reply beginning with OK and a complete, well-formed request; every other behaviour returns a non-success code within the step/time budget, with no sanitizer report, no SIGPIPE and no socket leak; cooperative runs give the exact verdict.',
+        'note': 'PAM framework calls are stubs; the socket is simulated (virtual time); select() failing with EBADF/EINVAL is outside the model.',
+        'parts': [PamxPart('explore')],
     },
     'C10': {
         'level': 'model_checking',
